@@ -254,8 +254,50 @@ fn panic_message(p: Box<dyn std::any::Any + Send>) -> String {
     }
 }
 
+/// A long-lived simulated *server* process (a build server, watch mode, an embedding of the
+/// compiler): the operations handed to it run one after another on ONE thread, so whatever the
+/// code under test keeps in thread-local or process-wide state survives from one operation to
+/// the next — including the hash keys std caches per thread. Each operation still gets its own
+/// simulation context (fault plan, entropy for anything drawn afresh, file-system clock).
+pub struct Server {
+    tx: Mutex<std::sync::mpsc::Sender<Box<dyn FnOnce() + Send>>>,
+    pt: libc::pthread_t,
+    pub dead: std::sync::atomic::AtomicBool,
+}
+
+impl Server {
+    pub fn new() -> Arc<Server> {
+        let (tx, rx) = std::sync::mpsc::channel::<Box<dyn FnOnce() + Send>>();
+        let handle = std::thread::Builder::new()
+            .name("simserver".to_string())
+            .stack_size(8 * 1024 * 1024)
+            .spawn(move || {
+                while let Ok(job) = rx.recv() {
+                    job();
+                }
+            })
+            .expect("spawn simulated server process");
+        let pt = {
+            use std::os::unix::thread::JoinHandleExt;
+            handle.as_pthread_t()
+        };
+        Arc::new(Server { tx: Mutex::new(tx), pt, dead: std::sync::atomic::AtomicBool::new(false) })
+    }
+}
+
 /// Run `f` as a simulated process in sandbox `root`.
 pub fn run_process<T: Send + 'static>(
+    root: &str,
+    spec: &ProcSpec,
+    gate: Option<(Arc<dyn GateLike>, usize)>,
+    f: impl FnOnce() -> anyhow::Result<T> + Send + 'static,
+) -> ProcResult<T> {
+    run_process_on(None, root, spec, gate, f)
+}
+
+/// Like `run_process`; with a server, the operation runs on the server's thread.
+pub fn run_process_on<T: Send + 'static>(
+    server: Option<&Server>,
     root: &str,
     spec: &ProcSpec,
     gate: Option<(Arc<dyn GateLike>, usize)>,
@@ -281,11 +323,7 @@ pub fn run_process<T: Send + 'static>(
         ctx.pid = pid;
     }
     let (tx, rx) = std::sync::mpsc::channel();
-    let builder = std::thread::Builder::new()
-        .name("simproc".to_string())
-        .stack_size(8 * 1024 * 1024);
-    let handle = builder
-        .spawn(move || {
+    let body = move || {
             if let Some(dir) = &cwd {
                 let c = std::ffi::CString::new(dir.as_str()).unwrap();
                 let ok = unsafe { libc::unshare(libc::CLONE_FS) == 0 && libc::chdir(c.as_ptr()) == 0 };
@@ -298,23 +336,35 @@ pub fn run_process<T: Send + 'static>(
             let r = std::panic::catch_unwind(std::panic::AssertUnwindSafe(f));
             let ctx = guard.take();
             let _ = tx.send((r, ctx));
-        })
-        .expect("spawn simulated process");
+        };
+    let server = server.filter(|sv| !sv.dead.load(std::sync::atomic::Ordering::Relaxed));
+    let (handle, pt, cpu0) = match server {
+        Some(sv) => {
+            let cpu0 = thread_cpu_time(sv.pt).unwrap_or_default();
+            sv.tx.lock().unwrap_or_else(|e| e.into_inner()).send(Box::new(body)).expect("simulated server process is gone");
+            (None, sv.pt, cpu0)
+        }
+        None => {
+            let builder = std::thread::Builder::new().name("simproc".to_string()).stack_size(8 * 1024 * 1024);
+            let handle = builder.spawn(body).expect("spawn simulated process");
+            let pt = {
+                use std::os::unix::thread::JoinHandleExt;
+                handle.as_pthread_t()
+            };
+            (Some(handle), pt, Duration::ZERO)
+        }
+    };
     // The watchdog counts the CPU time the process's thread has consumed, not wall-clock time:
     // on a contended host an operation that takes milliseconds of CPU can take arbitrarily long
     // on the wall, and a verdict must not depend on that. A thread that consumes no CPU at all
     // (blocked for good) is given up after `WATCHDOG_WALL`.
     let started = std::time::Instant::now();
-    let pt = {
-        use std::os::unix::thread::JoinHandleExt;
-        handle.as_pthread_t()
-    };
     let received = loop {
         match rx.recv_timeout(Duration::from_millis(200)) {
             Ok(v) => break Some(v),
             Err(std::sync::mpsc::RecvTimeoutError::Disconnected) => break None,
             Err(std::sync::mpsc::RecvTimeoutError::Timeout) => {
-                let cpu = thread_cpu_time(pt);
+                let cpu = thread_cpu_time(pt).map(|c| c.saturating_sub(cpu0));
                 if runaway.load(std::sync::atomic::Ordering::Relaxed) || cpu.map(|c| c >= WATCHDOG).unwrap_or(false) || started.elapsed() >= WATCHDOG_WALL {
                     break None;
                 }
@@ -323,7 +373,9 @@ pub fn run_process<T: Send + 'static>(
     };
     let out = match received {
         Some((r, ctx)) => {
-            let _ = handle.join();
+            if let Some(h) = handle {
+                let _ = h.join();
+            }
             let ctx = *ctx;
             let (exit, value) = if ctx.dead {
                 (Exit::Killed, None)
@@ -348,6 +400,10 @@ pub fn run_process<T: Send + 'static>(
         }
         None => {
           abandoned.store(true, std::sync::atomic::Ordering::Relaxed);
+          if let Some(sv) = server {
+              // the server's thread is lost with the operation that hangs on it
+              sv.dead.store(true, std::sync::atomic::Ordering::Relaxed);
+          }
           ProcResult {
             exit: Exit::Hung,
             value: None,
